@@ -35,7 +35,27 @@ def runner_check(scn, rule, probes, assumptions, quick=25, thorough=900):
     }
 
 
+TRACER_INSTRUMENT = [{"pkg": "./internal/tracer", "files": [], "mode": "S"}]
+TRACER_BASE = {
+    "testpkg": "./internal/tracer",
+    "instrument": TRACER_INSTRUMENT,
+    "sim": ["simrt", "simwork", "simio"],
+    "harness": [("tracer", "internal/tracer")],
+    "level": "exploration",
+}
+
 CHECKS = {
+    "C14": dict(TRACER_BASE, **{
+        "scenarios": [{"name": "c14"}],
+        "budget": {"quick": {"seconds": 30, "workers": 16}, "thorough": {"seconds": 900, "workers": 16}},
+        "rule": "each evaluation drives one body through TracingRoundTripper or TracingHandler (client response body, client request body, server request body, server response writer) with a scripted inner transport/handler: envelope sequence (flags incl. end-stream encodings 2/3/0x80/0x81 and random bytes, lengths 0..70 KiB, end-stream payload compressed or not, garbage), content type of each protocol, encoding header, seeded partition into Read/Write calls (simio chunking, boundary-aligned and 1-byte), cut at any byte, EOF / EOF-with-data / I/O error / error-with-data / early Close / failing short Write; a reference parser over (byte string, cut point) predicts the event list; transparency compares every (n, err, bytes) with the inner stream. Distinct = hash of case shape + chunk sizes; non-trivial = more than one chunk or a cut.",
+        "expect_probes": ["truncate-at-byte", "end:close-early", "end:error-with-data", "end:eof-with-data"],
+        "real": ["internal/tracer: reader.go (tracingReader, dataTracer), middleware.go (TracingRoundTripper, TracingHandler, tracingResponseWriter), builder.go, tracer.go (GetDecompressor); internal/compression"],
+        "stubbed": ["HTTP transport and handler (scripted), body streams (simio)", "no clock needed"],
+        "assumptions": ["a cut exactly after a 5-byte prefix may or may not produce a zero-length partial event (the statement does not decide it)",
+                        "end-stream content is only compared when the model can decide it (flag clear: raw; flag set and payload really compressed with the negotiated encoding: plaintext); flagged garbage only must not crash",
+                        "expected end-stream plaintext is produced with the repository's own compressors (their correctness is C20's subject)"],
+    }),
     "C09": {
         "testpkg": "./internal",
         "instrument": [{"pkg": "./internal", "files": ["delimited.go"], "mode": "S"}],
